@@ -24,10 +24,10 @@ RT = {"i": "i64", "p": "(i64, i64)", "kp": "(i64, (i64, i64))", "vi": "Vec<i64>"
 # ---------------------------------------------------------------------------------------------
 MAPS = {"inc": ("i", "i"), "dbl": ("i", "i"), "mod3": ("i", "i"), "key_mod2": ("i", "p"),
         "key_mod3": ("i", "p"), "pair_self": ("i", "p"), "fst": ("p", "i"), "snd": ("p", "i"),
-        "swap": ("p", "p"), "sum_pair": ("p", "i"), "val_inc": ("p", "p"), "join_sum": ("kp", "p"), "join_right": ("kp", "i"), "mul10": ("i", "i"),
+        "swap": ("p", "p"), "sum_pair": ("p", "i"), "val_inc": ("p", "p"), "join_sum": ("kp", "p"), "join_right": ("kp", "i"), "mul10": ("i", "i"), "add10": ("i", "i"),
         # lattice wrappers (Max<u64> / Min<u64>): identities in the model
         "to_max": ("i", "mx"), "from_max": ("mx", "i"), "kv_to_max": ("p", "kmx"), "kv_to_min": ("p", "kmn")}
-PREDS = {"is_even": "i", "lt3": "i", "lt6": "i", "gt1": "i", "key_even": "p", "val_lt3": "p", "lt100": "i"}
+PREDS = {"eq3": "i", "eq13": "i", "is_even": "i", "lt3": "i", "lt6": "i", "gt1": "i", "key_even": "p", "val_lt3": "p", "lt100": "i"}
 RANDOM_PREDS = ["is_even", "lt3", "lt6", "gt1", "key_even", "val_lt3"]
 RANDOM_MAPS = ["inc", "dbl", "mod3", "key_mod2", "key_mod3", "pair_self", "fst", "snd", "swap", "sum_pair", "val_inc", "join_sum", "join_right"]
 FLATS = {"dup": ("i", "i"), "rep_mod3": ("i", "i"), "pair_flat": ("p", "i")}
@@ -69,6 +69,26 @@ class Node:
 
 class GenError(Exception):
     pass
+
+
+class Reverser:
+    """statement permutation: descending textual order"""
+    def shuffle(self, lst):
+        lst.reverse()
+
+
+class Interleaver:
+    """statement permutation: odd positions first, then the even ones backwards"""
+    def shuffle(self, lst):
+        lst[:] = lst[1::2] + lst[0::2][::-1]
+
+
+def permuter(code):
+    if code == "desc":
+        return Reverser()
+    if code == "inter":
+        return Interleaver()
+    return random.Random(code)
 
 
 def pers_txt(pers):
@@ -506,6 +526,8 @@ class Prog:
             "add_ref": "map(|x: i64| x + *#%s%s)" % (g, name),
             "add_opt": "map(|x: i64| x + #%s%s.unwrap_or(100))" % (g, name),
             "add_len": "map(|x: i64| x + (#%s%s.len() as i64))" % (g, name),
+            "mul_ref": "map(|x: i64| x * *#%s%s)" % (g, name),
+            "opt_mut": "map(|x: i64| { let r: &mut Option<i64> = #%smut %s; let old = r.unwrap_or(100); *r = Some(old + x); x + old })" % (g, name),
             "acc_mut": "map(|x: i64| { let r: &mut i64 = #%smut %s; let old = *r; *r += x; x + old })" % (g, name),
             "push_mut": "map(|x: i64| { let r: &mut _ = #%smut %s; let n = r.len() as i64; r.push(x); n })" % (g, name),
             "retain_gt": "map(|x: i64| { let r: &mut _ = #%smut %s; r.retain(|y: &i64| *y > x); x })" % (g, name),
@@ -1337,6 +1359,92 @@ def loops_corpus():
     return P
 
 
+
+# ---------------------------------------------------------------------------------------------
+# access-group order (C25), reference reads feeding blocking operators (C23), several back edges (C26)
+# returns list of (prog, [permutation codes], extra flag for each permutation)
+# ---------------------------------------------------------------------------------------------
+def order_corpus():
+    out = []
+    import itertools as it
+
+    def groups_prog(kind, G, pats):
+        p = Prog("groups%d_%s" % (G, kind), "C25")
+        a, c = p.src(), p.src()
+        for pat in pats:
+            if kind == "singleton":
+                cell = p.cell(p.fold(c, "sum", "tick"), "singleton")
+                fr, fw = "add_ref", "acc_mut"
+            elif kind == "optional":
+                cell = p.cell(p.reduce(c, "max", "tick"), "optional")
+                fr, fw = "add_opt", "opt_mut"
+            else:
+                cell = p.cell(p.map(c, "inc"), "handoff")
+                fr, fw = "add_len", "push_mut"
+            for g, ch in enumerate(pat):
+                p.sink(p.ref_map(a, cell, fw if ch == "m" else fr, group=g))
+            p.sink(cell)
+        p.check()
+        return p
+    pats3 = ["".join(t) for t in it.product("mr", repeat=3) if "m" in t]
+    pats4 = ["mrrr", "rmrr", "rrmr", "rrrm", "mrrm", "mmrr", "rmmr", "mrmr"]
+    out.append((groups_prog("singleton", 3, pats3), [("desc", False), ("inter", False)]))
+    out.append((groups_prog("singleton", 4, pats4), [("desc", False), ("inter", True)]))
+    out.append((groups_prog("handoff", 3, pats3), [("desc", False), ("inter", True)]))
+    out.append((groups_prog("optional", 3, pats3), [("desc", False), ("inter", True)]))
+    out.append((groups_prog("handoff", 4, pats4), [("desc", True), ("inter", True)], True))
+    out.append((groups_prog("optional", 4, pats4), [("desc", True), ("inter", True)], True))
+
+    # C23: the input of a blocking operator depends on a reference read of the highest group; the
+    # lower-group writers are fed through tee / handoff / union chains (decorations); reader text first
+    def refdeep(name, block):
+        p = Prog("refdeep_" + name, "C23")
+        a, w0, w1, c = p.src(), p.src(), p.src(), p.src()
+        acc = p.cell(p.fold(c, "sum", "tick"), "singleton")
+        p.sink(p.ref_map(p.map(w0, "inc"), acc, "acc_mut", group=0))
+        p.sink(p.ref_map(p.union(w1, p.map(w0, "dbl")), acc, "acc_mut", group=1))
+        rd = p.ref_map(a, acc, "mul_ref", group=2)
+        block(p, rd, a)
+        p.check()
+        return p
+    out.append((refdeep("fold", lambda p, rd, a: p.sink(p.fold(rd, "sum", "tick"))), [("desc", False)]))
+    out.append((refdeep("sort_reduce", lambda p, rd, a: (p.sink(p.sort(rd)), p.sink(p.reduce(rd, "max", "static")))), [("desc", False)]))
+    out.append((refdeep("anti_join_neg", lambda p, rd, a: p.sink(p.anti_join(p.map(a, "key_mod3"), p.map(rd, "mod3"), ("tick", "tick")))), [("desc", False)]))
+    out.append((refdeep("difference_neg", lambda p, rd, a: p.sink(p.difference(p.map(a, "dbl"), rd, ("static", "tick")))), [("desc", True)], True))
+    out.append((refdeep("persist_unique", lambda p, rd, a: p.sink(p.unique(p.persist(rd), "tick"))), [("inter", True)], True))
+
+    # C26: nested loops with several non-lazy back edges; after the value 3 only the second back edge
+    # holds data, after 13 only the third
+    def backedges(name, n, order, lazy2=False):
+        p = Prog("loop_backedges_" + name, "C26")
+        p.avail_cycle_ok = True
+        t = p.src()
+        p.loop_begin()
+        rd = p.simple(p.window(t), "identity")
+        p.loop_begin()
+        w = p.window(rd)
+        ds = {}
+        for k in order:
+            ds[k] = p.defer("i", lazy=(lazy2 and k == 2), ordered=False)
+        u = p.union(w, *[ds[k] for k in sorted(ds)])
+        p.sink(u)
+        steps = {1: ("lt3", "inc"), 2: ("eq3", "add10"), 3: ("eq13", "inc")}
+        for k in order:
+            cond, step = steps[k]
+            p.defer_bind(ds[k], p.map(p.filter(u, cond), step))
+        p.loop_end()
+        p.sink(p.sort(p.unwindow(u)))
+        p.loop_end()
+        p.check()
+        return p
+    out.append((backedges("2_fwd", 2, [1, 2]), [("desc", False)]))
+    out.append((backedges("2_rev", 2, [2, 1]), []))
+    out.append((backedges("3_fwd", 3, [1, 2, 3]), [("inter", True)]))
+    out.append((backedges("3_rev", 3, [3, 2, 1]), [("desc", True)], True))
+    out.append((backedges("2_lazy_second", 2, [1, 2], lazy2=True), []))
+    out.append((backedges("3_lazy_second", 3, [2, 3, 1], lazy2=True), [("desc", True)], True))
+    return out
+
 # ---------------------------------------------------------------------------------------------
 # thorough-tier bulk (second generated module, cargo feature progs_x)
 # ---------------------------------------------------------------------------------------------
@@ -1981,7 +2089,7 @@ def build_all(seed, tier):
                       "extra": extra_mode[0]})
         return pid
 
-    nrand = dict(c21=6, c22=8, c23=10, c24=5)
+    nrand = dict(c21=4, c22=7, c23=8, c24=4)
 
     base = corpus() + refs_corpus() + loops_corpus()
     for p in base:
@@ -1995,6 +2103,29 @@ def build_all(seed, tier):
     for p in calibration():
         pid = register(p)
         hists[pid] = p.expect
+    order_extra, order_extra_bases = [], []
+    for item in order_corpus():
+        p, perms = item[0], item[1]
+        if len(item) > 2 and item[2]:
+            order_extra_bases.append((p, perms))
+            continue
+        pid = register(p)
+        hists[pid] = [history(hr, p, hr.randrange(*HL), 0.2 if p.prop == "C26" else 0.0) for _ in range(NH)]
+        d = {}
+        if p.name.startswith("refdeep_"):
+            # writers' inputs go through tee / handoff / union chains
+            for e in edges(p):
+                cons_, prod_ = p.nodes[e[2] - 1], p.nodes[e[0] - 1]
+                if cons_.op == "ref_map" and cons_.fn == "acc_mut":
+                    d[e] = ["tee_null", "handoff", "union_empty"]
+        if d:
+            progs[-1]["deco"] = d
+        for (code, is_extra) in perms:
+            if is_extra:
+                order_extra.append((p, code, pid, d))
+            else:
+                vid = register(p, variant=code, base=pid, shuffle=code, deco=d or None)
+                hists[vid] = hists[pid]
     # random C21
     for i in range(nrand["c21"]):
         p = random_prog(rng, "rand%02d" % i, "C21", rng.randrange(3, 8))
@@ -2061,6 +2192,21 @@ def build_all(seed, tier):
     extra_mode[0] = True
     xr = random.Random(seed * 31337 + 7)
     xh = random.Random(seed * 15485863 + (1 if tier == "thorough" else 0))
+    for (p, code, pid, d) in order_extra:
+        vid = register(p, variant=code, base=pid, shuffle=code, deco=d or None)
+        hists[vid] = hists[pid]
+    for (p, perms) in order_extra_bases:
+        pid = register(p)
+        hists[pid] = [history(xh, p, xh.randrange(*HL), 0.2 if p.prop == "C26" else 0.0) for _ in range(NH)]
+        d = {}
+        if p.name.startswith("refdeep_"):
+            for e in edges(p):
+                if p.nodes[e[2] - 1].op == "ref_map" and p.nodes[e[2] - 1].fn == "acc_mut":
+                    d[e] = ["tee_null", "handoff", "union_empty"]
+            progs[-1]["deco"] = d
+        for (code, _x) in perms:
+            vid = register(p, variant=code, base=pid, shuffle=code, deco=d or None)
+            hists[vid] = hists[pid]
     xprogs = list(extra_corpus())
     for i in range(14):
         xprogs.append(random_prog(xr, "xrand%02d" % i, "C21", xr.randrange(4, 9)))
@@ -2142,7 +2288,7 @@ def main():
                 continue
             fname = "p%03d" % e["id"]
             src.append("// %s [%s]%s" % (e["name"], e["prop"], " variant of p%03d" % e["base"] if e["variant"] else ""))
-            sh = (lambda: random.Random(e["shuffle"])) if e["shuffle"] is not None else (lambda: None)
+            sh = (lambda: permuter(e["shuffle"])) if e["shuffle"] is not None else (lambda: None)
             src.append(e["prog"].rust_fn(fname, e["deco"], sh()))
             src.append("")
             table.append("        %d => %s(steps, out)," % (e["id"], fname))
